@@ -16,7 +16,7 @@ structure Rec where
   tsSet : Bool := false        -- `Timestamp` is not the zero time
   unescaped : Bool := false
   refCount : Int := 0
-  backbuf : Bool := false      -- holds a pooled backing buffer
+  backbuf : Option Nat := none -- the pooled backing buffer it holds (an identifier of the buffer)
   deriving DecidableEq, Repr
 
 structure St where
@@ -24,13 +24,16 @@ structure St where
   outputs : Nat                        -- `initialRefCount`
   pool : List (Nat × Rec) := []        -- records in `sync.Pool`, by the handle they had when they were released
   live : List (Nat × Rec) := []        -- records handed out and not yet recycled, by handle
+  bufPool : List Nat := []             -- backing buffers in `backbufPools` (`util.BytesPoolBy2n`)
   deriving Repr
 
 /-- `newLogRecord` -/
 def fresh (n : Nat) : Rec := { fields := List.replicate n [] }
 
 inductive Op where
-  | new (h : Nat) (src : Option Nat) (big : Bool)     -- `NewRecord`; `src` = which pooled record `sync.Pool.Get` returned
+  | new (h : Nat) (src : Option Nat) (buf : Option Nat)
+      -- `NewRecord`; `src` = which pooled record `sync.Pool.Get` returned; `buf` = the backing buffer `backbufPools.Get`
+      -- returned for an input above `InputLogMinRecordBytesToPool` (one of the pooled buffers, or a new one), `none` for a short input
   | set (h i : Nat) (v : Bytes)                        -- parser / transform writes a field
   | hdr (h raw : Nat) (ts unesc : Bool)               -- parser sets RawLength, Timestamp, Unescaped
   | release (h : Nat)                                  -- `Release`
@@ -42,18 +45,30 @@ def update (l : List (Nat × Rec)) (h : Nat) (r : Rec) : List (Nat × Rec) := l.
 
 /-- what `Release` does to a record whose count reaches zero -/
 def cleared (r : Rec) : Rec :=
-  { r with fields := r.fields.map (fun _ => []), rawLength := 0, tsSet := false, backbuf := false }
+  { r with fields := r.fields.map (fun _ => []), rawLength := 0, tsSet := false, backbuf := none }
+
+/-- the backing buffers referenced by records that are handed out -/
+def liveBufs (l : List (Nat × Rec)) : List Nat := l.filterMap (fun p => p.2.backbuf)
+
+/-- `backbufPools.Get`: a pooled buffer leaves the pool; a new one must be new -/
+def takeBuf (s : St) : Option Nat → Option (List Nat)
+  | none => some s.bufPool
+  | some b => if b ∈ s.bufPool then some (s.bufPool.erase b)
+              else if b ∈ liveBufs s.live then none else some s.bufPool
 
 def step (s : St) : Op → Option St
-  | .new h src big =>
+  | .new h src buf =>
     if (lookup s.live h).isSome then none else
-    match src with
-    | none => some { s with live := s.live ++ [(h, { fresh s.nFields with refCount := s.outputs, backbuf := big })] }
-    | some p =>
-      match lookup s.pool p with
-      | none => none
-      | some r => some { s with pool := remove s.pool p,
-                                live := s.live ++ [(h, { r with refCount := r.refCount + s.outputs, backbuf := big })] }
+    match takeBuf s buf with
+    | none => none
+    | some bp =>
+      match src with
+      | none => some { s with bufPool := bp, live := s.live ++ [(h, { fresh s.nFields with refCount := s.outputs, backbuf := buf })] }
+      | some p =>
+        match lookup s.pool p with
+        | none => none
+        | some r => some { s with pool := remove s.pool p, bufPool := bp,
+                                  live := s.live ++ [(h, { r with refCount := r.refCount + s.outputs, backbuf := buf })] }
   | .set h i v =>
     match lookup s.live h with
     | none => none
@@ -69,7 +84,8 @@ def step (s : St) : Op → Option St
       let c := r.refCount - 1
       if c < 0 then none                        -- `logger.Panic("negative reference count")`
       else if c > 0 then some { s with live := update s.live h { r with refCount := c } }
-      else some { s with live := remove s.live h, pool := s.pool ++ [(h, cleared { r with refCount := 0 })] }
+      else some { s with live := remove s.live h, pool := s.pool ++ [(h, cleared { r with refCount := 0 })],
+                         bufPool := s.bufPool ++ r.backbuf.toList }     -- recycleRecord: the buffer goes back first
 
 def run (s : St) : List Op → Option St
   | [] => some s
